@@ -13,12 +13,14 @@ PROP = dict(
         # the property
         "Shangrla.C04.raire_true", "Shangrla.C04.raire_sufficient", "Shangrla.C04.raire_empty_iff",
         "Shangrla.C04.raire_empty_witness", "Shangrla.C04.wrong_winner_empty", "Shangrla.C04.raire_no_exception",
+        "Shangrla.C04.raire_terminates", "Shangrla.C04.raire_correct",
     ],
     groups={"raire": (3000, 40000)},
     design_ref="DESIGN.md section 5, C04; Appendix F",
     assumptions=[
-        "theorems are about `some`/`Res.ok` results of the fuelled model (termination of the search is not proved; "
-        "the driver runs with fuel 2000000 and the correspondence check reports any fuel exhaustion)",
+        "the model's main loop is fuelled; raire_terminates proves that raireFuel(C, winner) iterations always suffice and "
+        "that no exception exit is reached, so the other theorems (stated for any fuel with a Res.ok result) apply; the "
+        "driver runs with fuel 2000000 and the correspondence check reports any fuel exhaustion",
         "candidates duplicate-free and at least two; difficulty comparison a lawful total preorder (floats without NaN); "
         "agap = 0; the -10 start of the lower bound is below every difficulty",
         "wrong_winner_empty / valid_order_not_excluded: ballots well formed (no candidate and no position twice)",
